@@ -122,6 +122,11 @@ class Prop:
             B = np.array([[rng.randint(-2, 2) for _ in range(n)] for _ in range(r)], dtype=np.float64)
             base = rng.choice([0.3, 0.5])
             M = A @ np.diag([base ** k for k in range(r)]) @ B
+        elif cls == "faint":      # genuine components far below the leading one but far above round-off
+            m, n = max(m, 3), max(n, 3)
+            A = np.array([[rng.randint(-2, 2) for _ in range(3)] for _ in range(m)], dtype=np.float64)
+            B = np.array([[rng.randint(-2, 2) for _ in range(n)] for _ in range(3)], dtype=np.float64)
+            M = A @ np.diag([1.0, 1e-5, 1e-10]) @ B
         elif cls == "ties":
             M = np.zeros((m, n))
             p = list(range(n)); rng.shuffle(p)
@@ -166,7 +171,7 @@ class Prop:
                             cases.append({"op": op, "x": x.tolist(), "ranks": r, "alg": alg,
                                           "tags": dict(op=op, cls=cls, N=N, alg=alg, ranks="int", size1=1 in x.shape, grid=True)})
         # ---- truncated SVD
-        mcls = ["generic", "generic", "rankdef", "decay", "ties", "zero", "one"]
+        mcls = ["generic", "generic", "rankdef", "decay", "faint", "ties", "zero", "one"]
         for _ in range(900 if quick else 9000):
             cls = rng.choice(mcls)
             M = self._matrix(rng, cls)
@@ -183,6 +188,8 @@ class Prop:
             rmax = rng.choice([None, None, 1, 2, 3, 8])
             lo = rng.random() < 0.5
             alg = algs[k % 2]; k += 1
+            if cls == "faint":
+                alg = "svd"       # the Gram-matrix route cannot resolve components below ~1e-8 relative
             delta = 0.0 if mode == "none" else (val if mode == "delta" else val * nm)
             rank_num = int(np.sum(s > 1e-9 * s[0])) if s[0] > 0 else 0
             cap = min(m, n, rmax if rmax is not None else 10 ** 9)
@@ -378,7 +385,7 @@ class Prop:
         recs = []
         orig = torch.linalg.svd
         def wrap(A, *a, **k):
-            out = orig(A, *a, **k); recs.append((out[0].detach().clone(), out[1].detach().clone())); return out
+            out = orig(A, *a, **k); recs.append((out[0].detach().clone(), out[1].detach().clone(), out[2].detach().clone())); return out
         kw = {"rmax": case["rmax"], "left_ortho": case["left_ortho"], "algorithm": "svd"}
         if case["mode"] == "delta": kw["delta"] = case["val"]
         elif case["mode"] == "eps": kw["eps"] = case["val"]
@@ -391,17 +398,12 @@ class Prop:
             torch.linalg.svd = orig
         if len(recs) != 1:
             return None
-        Us, ss = recs[0]
+        Us, ss, Vhs = recs[0]
         delta = case["val"] if case["mode"] == "delta" else (case["val"] * float(torch.norm(M)) if case["mode"] == "eps" else 0.0)
         S = (ss ** 2).tolist()
         # a rank decision that hinges on round-off (a tail sum within 1e-9 relative of the budget) is not replayed exactly
         tails = np.cumsum(S[::-1]); d2 = delta ** 2
         if any(abs(t - d2) <= 1e-9 * max(d2, t, 1e-300) for t in tails):
-            return None
-        # with left_ortho=False the kept reciprocal singular values amplify round-off of U^T M: the implementation's
-        # own output is round-off dominated when a kept value is tiny, so it cannot be compared with exact arithmetic
-        r_kept = U.shape[1]
-        if not case["left_ortho"] and float(ss[0]) > 0 and any(float(x) < 1e-7 * float(ss[0]) for x in ss[:r_kept]):
             return None
         D = 2 ** 40
         ql = lambda x: "(%d#%d)" % (round(float(x) * D), D)
@@ -409,6 +411,6 @@ class Prop:
         a2 = lambda A: "(mkA2 %d %d %s)" % (A.shape[0], A.shape[1], coq_list(A.reshape(-1).tolist(), ql, "Q"))
         rmax = case["rmax"] if case["rmax"] is not None else 1000
         d2q = Fraction(d2).limit_denominator(10 ** 18)
-        return "mkCase %s %s %d%%nat %s (mkSvd %s %s) %s %s" % (
+        return "mkCase %s %s %d%%nat %s (mkSvd %s %s %s) %s %s" % (
             a2(M), qlit(d2q), min(int(rmax), 1000), "true" if case["left_ortho"] else "false",
-            a2(Us), coq_list(ss.tolist(), qx, "Q"), a2(U.detach()), a2(V.detach()))
+            a2(Us), coq_list(ss.tolist(), qx, "Q"), a2(Vhs), a2(U.detach()), a2(V.detach()))
